@@ -22,7 +22,10 @@
     or of a non-silent rule object embedded in a rule body (`spec_names`, `interp_names`,
     `gen_names`).  EOI is such a rule (table entry or embedded object).
   * Tags: every tag at every depth is written on an identifier or group node of a rule body
-    (`interp_tags`, `gen_tags`; L0 has no tags).
+    (`interp_tags`, `gen_tags`; L0 has no tags).  Not claimed (the property text does not):
+    *which* pair carries a tag.  In the code the pending tag is popped by the first non-silent
+    rule that finishes, so for `#t = x`, `x = { y }` the tag lands on the inner pair `y`, not on
+    `x`; the models mirror that (last example below).
   * One root pair for a non-silent start rule, starting at `start_pos` (`spec_root_single`,
     `interp_root_single`, `gen_root_single`).
   * `tokens()` balanced and sorted, `flatten()` its pre-order, two tokens per pair
@@ -386,7 +389,7 @@ example : (match LG.parse demoG demoInp 30 "r" 0 with
 example : (match L0.parse demoG demoInp 30 "r" 0 with
     | .ok _ ps => pairsEqB ps (demoTree false) | _ => false) = true := by decide +kernel
 
--- L0 has no tags: drop the "some pair is tagged" conjunct by checking the erased L1 tree
+-- L0 has no tags, so `goodB` minus its "some pair is tagged" conjunct
 example : (match L0.parse demoG demoInp 30 "r" 0 with
     | .ok s ps => s.pos == 8 && wfForestB 0 s.pos ps && ps.length == 1 &&
         (flattenL ps).map Pair.name == ["r", "x", "COMMENT", "at", "cp", "y", "EOI"]
@@ -413,6 +416,15 @@ example (c : PState) (ps : List Pair) (h : L1.parse demoG demoInp 30 "r" 0 = .do
     GoodTree demoG demoInp "r" 0 c.pos ps :=
   interp_tree_wf demoG demoInp (by intro r h; simp [Grammar.fusedSkip, Grammar.lookup, demoG] at h)
     30 "r" 0 c ps h (by decide)
+
+-- which pair gets the tag is *not* part of C06: `r = { #tg = x }`, `x = { y }`, `y = { "b" }` on "b"
+-- yields `r( x( y#tg ) )` in the interpreter model, as in the code
+example : (match L1.parse { rules := [⟨"r", 0, .ident "x" (some "tg"), .grammar⟩,
+                                      ⟨"x", 0, .ident "y" none, .grammar⟩,
+                                      ⟨"y", 0, .str [98], .grammar⟩] } #[98] 20 "r" 0 with
+    | .done true _ ps =>
+      pairsEqB ps [.mk "r" 0 0 1 [.mk "x" 0 0 1 [.mk "y" 0 0 1 [] (some "tg")] none] none]
+    | _ => false) = true := by decide +kernel
 
 end C06
 end Pest
